@@ -141,17 +141,27 @@ func checkInput(in []byte) (valid bool) {
 	if !isPrefixBOMAside(dF, in) {
 		report("returned-bytes-not-from-input", in, fmt.Sprintf("reportSyntaxError=false returned %s which is not a leading portion of the input", vlib.Q(dF)))
 	}
-	if eT != nil && eT.Error() == "syntax error" {
+	// Syntax errors not requested: no error, and if the scan found a problem the whole input.
+	// Decided without looking at which error value the implementation uses: on NUL-free input
+	// (a NUL byte is its own error class, reported in both modes) reportSyntaxError=false must
+	// never return an error, and whenever reportSyntaxError=true returns one, it must return
+	// the whole input.
+	hasNUL := bytes.IndexByte(in, 0) >= 0
+	if eT != nil {
 		atomic.AddInt64(&nSyntaxErr, 1)
-		// syntax errors not requested: whole input, no error
-		if eF != nil && bytes.IndexByte(in, 0) >= 0 && eF.Error() == "unexpected NUL in input" {
-			// a NUL byte is not a syntax error: it is reported in both modes
-			run.Count("nul_after_syntax_error", 1)
-		} else if eF != nil {
+	}
+	switch {
+	case hasNUL:
+		if eF != nil && eF.Error() != "unexpected NUL in input" {
 			report("syntax-error-reported-when-not-requested", in, fmt.Sprintf("reportSyntaxError=false returned error %v", eF))
-		} else if !isWholeBOMAside(dF, in) {
-			report("not-whole-input-on-syntax-error", in, fmt.Sprintf("reportSyntaxError=false returned %d of %d bytes: %s", len(dF), len(in), vlib.Q(dF)))
 		}
+		if eF != nil {
+			run.Count("nul_error_in_both_modes", 1)
+		}
+	case eF != nil:
+		report("syntax-error-reported-when-not-requested", in, fmt.Sprintf("reportSyntaxError=false returned error %v (reportSyntaxError=true: %v)", eF, eT))
+	case eT != nil && !isWholeBOMAside(dF, in):
+		report("not-whole-input-on-syntax-error", in, fmt.Sprintf("reportSyntaxError=true reports %v, but reportSyntaxError=false returned %d of %d bytes: %s", eT, len(dF), len(in), vlib.Q(dF)))
 	}
 	if !valid {
 		atomic.AddInt64(&nInvalid, 1)
